@@ -331,6 +331,28 @@ func (this *partition) removeNode(nodeId uint64) {
 	}
 }
 
+// Brings the replica set to the given one (a snapshot of the dataset manager),
+// node by node, the way the entries that made it would have.
+func (this *partition) setNodes(nodeIds []uint64) {
+	wanted := make(map[uint64]struct{})
+	for _, id := range nodeIds {
+		wanted[id] = struct{}{}
+	}
+
+	current := make(map[uint64]struct{})
+	for _, id := range this.nodeIds() {
+		current[id] = struct{}{}
+		if _, exists := wanted[id]; !exists {
+			this.removeNode(id)
+		}
+	}
+	for _, id := range nodeIds {
+		if _, exists := current[id]; !exists {
+			this.addNode(id)
+		}
+	}
+}
+
 func (this *partition) proposeAndWaitForCommit(ctx context.Context, proposal *pb.PartitionChange) (interface{}, error) {
 	ctx, cancelCtx := context.WithTimeout(ctx, proposalTimeout)
 	defer cancelCtx()
